@@ -1166,6 +1166,15 @@ def read_task_receive_is_cancel_safe(ctx, rule):
     R.fn(b)
     direct = b.calls_to(r"TransportReceiverT::receive$")
     nested = [c for x in F.nested(b, include_self=False) for c in x.calls_to(r"TransportReceiverT::receive$")]
+    # ... or in a named (async) fn handed to the stream constructor instead of a closure
+    for c in b.calls:
+        for a in c.args:
+            k = op_const(a)
+            if k is not None and "fn" in k:
+                for pth in (k["fn"], k["fn"] + "::{closure#0}"):
+                    x = F.bodies.get(pth)
+                    if x is not None:
+                        nested += x.calls_to(r"TransportReceiverT::receive$")
     kept = b.calls_to(r"stream::unfold$|stream::(poll_fn|repeat_with|once)$")
     R.check(not direct and bool(nested) and bool(kept), rule, "read_task:receive-kept-across-iterations", "the transport receive lives in a stream kept across loop iterations", "read_task polls receiver.receive() directly as a branch of its select loop (direct=%d, wrapped=%d): when another branch wins while a message is half received, the partial frame is dropped, the stream desynchronises and a response/notification the server sent is lost" % (len(direct), len(nested)), where(direct[0]) if direct else "%s:%d" % (b.file, b.lo))
 
